@@ -67,6 +67,13 @@ Theorem C02_foreign_prefix_rejected : forall (D : Deps) (net : Nets.net) (q rest
 Proof. exact Final.foreign_prefix_rejected. Qed.
 Print Assumptions C02_foreign_prefix_rejected.
 
+(* the four CashAddr rules above conclude [not_cash]; for every prefix-qualified rendering (a string
+   containing ':', which neither hex nor Base58 can contain) that is outright rejection *)
+Theorem C02_prefixed_not_cash_rejected : forall (D : Deps) (net : Nets.net) (s : list N), wf_net net = true ->
+  In 58 s -> not_cash D (dec D net s) -> forall a, dec D net s <> Ok a.
+Proof. exact Final.prefixed_not_cash_rejected. Qed.
+Print Assumptions C02_prefixed_not_cash_rejected.
+
 (* six nets: an SLP checksum never verifies under the cash prefix and conversely *)
 Theorem C02_slp_cash_separated :
   Forall (fun n => has_slp n = true -> forall p, Forall (fun x => x < 32) p ->
